@@ -1,3 +1,105 @@
-// unit reader: harnesses for sdk/src/reader.rs (included by the cfg(kani) hook at the end of that file)
+// unit reader: sdk/src/reader.rs (included by the cfg(kani) hook at the end of that file)
+// C23 (propagation at the public API, Engine B): for every callback invocation index k of a read / sign run, returning
+// false at the k-th invocation ends the operation with Error::OperationCancelled - never Ok, never another error.
+// Also the step discipline: step >= 1, step <= total when total != 0, strictly increasing within a run of one phase.
 #[allow(unused_imports)]
 use super::*;
+
+#[cfg(test)]
+fn c23_sweep<F>(label: &str, run: F, counts: &mut std::collections::BTreeMap<String, usize>) -> (usize, usize)
+where
+    F: Fn(Context) -> std::result::Result<String, Error>,
+{
+    use std::sync::{
+        atomic::{AtomicUsize, Ordering},
+        Arc, Mutex,
+    };
+    // a full run: count callbacks and check the step discipline
+    let seen: Arc<Mutex<Vec<(String, u32, u32)>>> = Arc::new(Mutex::new(Vec::new()));
+    let s2 = Arc::clone(&seen);
+    let ctx = crate::utils::test::test_context().with_progress_callback(move |p, s, t| {
+        s2.lock().unwrap().push((format!("{p:?}"), s, t));
+        true
+    });
+    let full = run(ctx);
+    let calls = seen.lock().unwrap().clone();
+    let total = calls.len();
+    let mut bad = |k: String, input: String, counts: &mut std::collections::BTreeMap<String, usize>| {
+        let c = counts.entry(k.clone()).or_insert(0);
+        *c += 1;
+        if *c <= 3 {
+            println!("VERIF-B-VIOLATION key={k} input={input}");
+        }
+    };
+    if full.is_err() {
+        println!("VERIF-B-SAMPLE {label}: uncancelled run failed: {:?}", full.err());
+        return (0, 0);
+    }
+    let mut prev: Option<(String, u32)> = None;
+    for (i, (p, s, t)) in calls.iter().enumerate() {
+        if *s < 1 || (*t != 0 && s > t) {
+            bad("progress.step_out_of_range".to_string(), format!("{label}: callback {i} phase {p} step {s} total {t}"), counts);
+        }
+        if let Some((pp, ps)) = &prev {
+            if pp == p && *s <= *ps && *s != 1 {
+                bad("progress.step_not_increasing".to_string(), format!("{label}: callback {i} phase {p} step {s} after step {ps}"), counts);
+            }
+        }
+        prev = Some((p.clone(), *s));
+    }
+    let mut evals = 1usize;
+    for k in 0..total {
+        evals += 1;
+        let c = Arc::new(AtomicUsize::new(0));
+        let c2 = Arc::clone(&c);
+        let ctx = crate::utils::test::test_context().with_progress_callback(move |_p, _s, _t| c2.fetch_add(1, Ordering::SeqCst) != k);
+        match run(ctx) {
+            Err(Error::OperationCancelled) => {}
+            Err(e) => bad("cancel.reported_as_other_error".to_string(), format!("{label}: cancel at callback {k} ({:?}) -> Err({e})", calls[k]), counts),
+            Ok(desc) => bad(format!("cancel.swallowed.{}", calls[k].0), format!("{label}: cancel at callback {k} ({:?}) -> Ok: {desc}", calls[k]), counts),
+        }
+    }
+    println!("VERIF-B-SAMPLE {label}: {total} callbacks in a full run, phases {:?}", calls.iter().map(|c| c.0.clone()).collect::<std::collections::BTreeSet<_>>());
+    (evals, total)
+}
+
+#[test]
+fn c23_cancel_at_every_callback() {
+    let mut counts = std::collections::BTreeMap::new();
+    let mut evals = 0usize;
+    let mut nontrivial = 0usize;
+    // reads of signed fixtures: data hash (JPEG), BMFF hash (MP4), box hash is produced below
+    for (file, mime) in [("CA.jpg", "image/jpeg"), ("C.jpg", "image/jpeg"), ("video1.mp4", "video/mp4"), ("sample1.gif", "image/gif"), ("exp-test1.png", "image/png")] {
+        let Ok(bytes) = std::fs::read(crate::utils::test::fixture_path(file)) else { continue };
+        let (e, n) = c23_sweep(
+            &format!("read {file}"),
+            |ctx| {
+                let r = Reader::from_context(ctx).with_stream(mime, std::io::Cursor::new(bytes.clone()))?;
+                Ok(format!("state {:?}", r.validation_state()))
+            },
+            &mut counts,
+        );
+        evals += e;
+        nontrivial += n;
+    }
+    // signing (embedded, data hash) incl. verify-after-sign
+    for (file, mime) in [("IMG_0003.jpg", "image/jpeg"), ("libpng-test.png", "image/png"), ("video1_no_manifest.mp4", "video/mp4")] {
+        let Ok(bytes) = std::fs::read(crate::utils::test::fixture_path(file)) else { continue };
+        let (e, n) = c23_sweep(
+            &format!("sign {file}"),
+            |ctx| {
+                let shared = ctx.into_shared();
+                let mut b = crate::Builder::from_shared_context(&shared).with_definition(r#"{"title":"t","assertions":[]}"#)?;
+                let mut src = std::io::Cursor::new(bytes.clone());
+                let mut dst = std::io::Cursor::new(Vec::new());
+                b.save_to_stream(mime, &mut src, &mut dst)?;
+                Ok(format!("signed {} bytes", dst.get_ref().len()))
+            },
+            &mut counts,
+        );
+        evals += e;
+        nontrivial += n;
+    }
+    println!("VERIF-B-SAMPLE violation classes this run: {:?}", counts);
+    println!("VERIF-B unit=reader test=c23_cancel_at_every_callback evaluations={evals} nontrivial={nontrivial} exhaustive=true domain=every callback index k of a full run x {{read CA.jpg, C.jpg, video1.mp4, sample1.gif, exp-test1.png; sign IMG_0003.jpg, libpng-test.png, video1_no_manifest.mp4}}");
+}
